@@ -6,7 +6,7 @@
    lie in one NTP era k (Time64 comparison wraps at era boundaries), capacities
    are arbitrary positive numbers; [reachable] = reached from the empty store by
    such a history, together with the log of all replies and reports so far. *)
-From ST Require Import Base.Ints Model.NtpTime Model.Tss Proofs.TssProofs Proofs.TssInv Proofs.TssRun.
+From ST Require Import Base.Ints Model.NtpTime Model.Tss Model.TssOracle Proofs.TssProofs Proofs.TssInv Proofs.TssRun Proofs.TssOracleProofs.
 From Coq Require Import ZArith List.
 Import ListNotations.
 Open Scope Z_scope.
@@ -90,6 +90,36 @@ Proof.
   destruct (update_tx_spec k c s cid rxt txt HI E1 E2 E3) as [_ [H1 [H2 [_ H3]]]]. auto.
 Qed.
 Print Assumptions C06_kernel_tx.
+
+(* the property oracle that is evaluated on the implementation's observations
+   (Model/TssOracle.v, written from the property text) accepts everything the
+   model does, in every reachable state: a rejection on the real code is
+   therefore a disagreement with the model AND a violation of the property *)
+Theorem C06_model_meets_handle_oracle : forall k c s log cid q rxt now victim out,
+  0 < icap c -> 0 <= cap c -> reachable k c s log ->
+  in_era k rxt -> in_era k (rxt + icap c + 1) -> in_era k now ->
+  handle c s cid q rxt now victim = Some out ->
+  C06_handle_ok (pre_of s cid) q rxt now (r_org (o_reply out)) (r_rx (o_reply out)) (r_tx (o_reply out))
+    (o_rxt out) (o_txt out) = true.
+Proof.
+  intros k c s log cid q rxt now victim out Hi Hc Hr E1 E2 E3 Hh.
+  destruct (reachable_inv k c Hi s log Hc Hr) as [HI _].
+  exact (model_handle_oracle k c Hi s cid q rxt now victim out HI E1 E2 E3 Hh).
+Qed.
+Print Assumptions C06_model_meets_handle_oracle.
+
+Theorem C06_model_meets_update_oracle : forall k c s log cid rxt txt,
+  0 < icap c -> 0 <= cap c -> reachable k c s log ->
+  in_era k rxt -> in_era k (rxt + 1) -> in_era k txt ->
+  let out := update_tx s cid rxt txt in
+  C06_update_ok (pre_of s cid) (pre_of (t_state out) cid) rxt (t_txt out) = true /\
+  pairs_ordered (pre_of (t_state out) cid) = true /\ rxt < t_txt out.
+Proof.
+  intros k c s log cid rxt txt Hi Hc Hr E1 E2 E3.
+  destruct (reachable_inv k c Hi s log Hc Hr) as [HI _].
+  exact (model_update_oracle k c s cid rxt txt HI E1 E2 E3).
+Qed.
+Print Assumptions C06_model_meets_update_oracle.
 
 (* the hypotheses are satisfiable: a concrete history in era 0 of the real configuration *)
 Example C06_nonvacuous :
